@@ -16,7 +16,7 @@ def gh_nodes(dim, n=10):
     return nodes, weights
 
 
-def build(rng, trial_kind, walker_type, norb, ne, nchol, dt, spin_dep, n_walkers, n_exp_terms=6, rdm_random=True):
+def build(rng, trial_kind, walker_type, norb, ne, nchol, dt, spin_dep, n_walkers, n_exp_terms=6, rdm_random=True, prop_batch=1):
     """system with an *arbitrary* rdm1 for the mean-field shift and a complex, non-orthonormal walker"""
     import jax.numpy as jnp
     from ad_afqmc import hamiltonian, propagation
@@ -34,9 +34,9 @@ def build(rng, trial_kind, walker_type, norb, ne, nchol, dt, spin_dep, n_walkers
     else:
         wd["rdm1"] = jnp.array(trial.get_rdm1({k: v for k, v in wd.items() if k != "rdm1"}))
     if walker_type == "restricted":
-        prop = propagation.propagator_restricted(dt=dt, n_walkers=n_walkers, n_exp_terms=n_exp_terms)
+        prop = propagation.propagator_restricted(dt=dt, n_walkers=n_walkers, n_exp_terms=n_exp_terms, n_batch=prop_batch)
     else:
-        prop = propagation.propagator_unrestricted(dt=dt, n_walkers=n_walkers, n_exp_terms=n_exp_terms)
+        prop = propagation.propagator_unrestricted(dt=dt, n_walkers=n_walkers, n_exp_terms=n_exp_terms, n_batch=prop_batch)
     ham_data = ham.build_measurement_intermediates(ham_data, trial, wd)
     ham_data = ham.build_propagation_intermediates(ham_data, prop, trial, wd)
     return dict(ham=ham, ham_data=ham_data, plain=plain, trial=trial, wave_data=wd, desc=desc, prop=prop)
